@@ -18,16 +18,22 @@
  *        From the frame + LIFO facts: the list is a chain in which a cell occurs as often as it was pushed and not
  *        yet popped -- "a cell is on a list at most once" is then the callers' obligation "released at most once"
  *        (part 2, ledger).
- *   (A3) myth_flmalloc: a hit returns the head of exactly the list [rank][class(size)] and never maps memory;
- *        a miss maps ONE fresh block of 2^class bytes >= size (class >= 12) or one page (class < 12) that is carved
- *        into PAGE_SIZE/2^class cells: cell 0 is returned, cells 1..n-1 are chained on the list, each exactly once,
- *        each inside the page, pairwise disjoint (distinct multiples of the cell size) -- loop contract, witness cell.
- *        myth_flfree(rank,size,p) pushes p on list [rank][class(size)], the class malloc used for that size.
- *   (A4) custom stack: returned pointer = block + rounded - 16, the size word (rounded) lies inside the block, release
- *        recomputes the block start EXACTLY and puts it on the list of the class the block came from, on the lists of
- *        the worker that executes the release; the next request of that class on that worker gets this very block
- *        (so a wrong start/class would hand out overlapping memory).
- *   (A5) default stack / record: same with env->freelist_stack (size word 0) / env->freelist_desc.
+ *   (A3) myth_flmalloc (list operations replaced by ledger stubs, see below): a hit returns the head of exactly the list
+ *        [rank][class(size)] and never maps memory; a miss maps ONE fresh block of 2^class bytes >= size (class >= 12) or
+ *        one page (class < 12) that is carved into n = PAGE_SIZE/2^class cells: cell 0 is returned, and the j-th push is
+ *        exactly cell j (address page + j * cellsize, inside the page) for j = 1 .. n-1 -- so every cell is put on the
+ *        list exactly once, never cell 0, cells pairwise disjoint.  The carving loop is closed by a LOOP CONTRACT.
+ *        myth_flfree(rank,size,p) pushes p on list [rank][class(size)], the class myth_flmalloc pops from for that size.
+ *   (A4) custom stack: one block request of the page-rounded size; returned pointer = block + rounded - 16; the size word
+ *        (rounded, non-zero) lies inside the block; release recomputes the block START exactly, selects the class the
+ *        block was allocated from and goes to the lists of the worker that EXECUTES the release (the thread may have
+ *        migrated).  Checked twice: against the allocator's contract (h_stack_custom) and on the real
+ *        myth_flmalloc/myth_flfree (h_stack_custom_alloc, hit and miss).
+ *   (A5) default stack / record: same with env->freelist_stack (size word 0) / env->freelist_desc; a thread without own
+ *        stack releases nothing.
+ * From (A2)-(A5) + part 2 (every stack / record is released at most once, only when no longer in use) it follows on
+ * paper that two live owners never share a byte: blocks come from mmap (fresh) or from a list; a block is on a list
+ * only between its release and the next pop that returns it; carved cells are disjoint.
  *
  * Assumed: mmap returns a fresh region disjoint from every other object (OS; here: malloc-backed stub) and does not
  * fail (on failure the library aborts in myth_mmap).
@@ -98,6 +104,18 @@ void h_sizeclass(void) {
   size_t u = nondet_ulong();
   __CPROVER_assume(2 <= u && u <= s);
   __CPROVER_assert(MYTH_MALLOC_SIZE_TO_INDEX(u) <= idx, "class index is monotone in the size");
+  VERIF_CANARY();
+}
+
+/* why the precondition is needed (lemma, natively confirmed: myth_create_ex with a 2^30+4096 byte stack dies with SIGSEGV) */
+void h_sizeclass_limit(void) {
+  size_t s = nondet_ulong();
+  __CPROVER_assume(((size_t)1 << 30) < s && s <= ((size_t)1 << 31));
+  int idx = MYTH_MALLOC_SIZE_TO_INDEX(s);
+  __CPROVER_assert(idx == FREE_LIST_NUM, "limit: for 2^30 < s <= 2^31 the class index is FREE_LIST_NUM, one past the last list");
+  /* above 2^32 the conversion to the 32-bit argument of __builtin_clz truncates: cbmc's conversion check reports it
+     (the obligation `arithmetic overflow on unsigned to unsigned type conversion in (unsigned int)(size - 1)` of
+     myth_flmalloc / myth_flfree is discharged in the other jobs only thanks to the precondition) */
   VERIF_CANARY();
 }
 
